@@ -49,6 +49,9 @@ def judge_verdicts(vec, res, keep, label):
             viols.append(viol('verdicts:failure-text:%s' % b, '%s: failure verdict of %s should say %r' % (label, o['id'], text), text, o['message']))
         if status == 'Equal' and b != 'spawns_child' and o['message'] != o['id']:
             viols.append(viol('verdicts:foreign-verdict', '%s: verdict attached to %s was computed for %s' % (label, o['id'], o['message']), o['id'], o['message']))
+        for name, val, own in (('expected', o['expected'], ('rec', o['id'])), ('actual', o['actual'], ('play', o['id']))):
+            if val is not None and val != own:   # whatever a comparison carries was extracted from ITS recording / replay (failures included)
+                viols.append(viol('verdicts:foreign-results', '%s: comparison of %s (behaviour %s) carries %s results of another recording (vector %s)' % (label, o['id'], b, name, list(vec)), own, val))
         if status in ('Equal', 'Different', 'Fixed'):
             if o['playback'] != o['id']:
                 viols.append(viol('verdicts:playback-missing', '%s: successful comparison without its replay' % label, o['id'], o['playback']))
